@@ -96,6 +96,24 @@ KF_C06_grammar(step) ==
            OnlyNoIdProblem(step.ast.bundles[b].exprs[i])
   THEN "KF-C06-noid" ELSE ""
 
+(* KF-C07-alternate-id: an alternateOf record WITH an identifier is written to RDF as a   *)
+(* typed node without its two entities (PROV-O has no qualified form for alternateOf and  *)
+(* the writer skips the relation), so it comes back without endpoints and attributes.      *)
+AltIdOnly(srcRecs, backRecs) ==
+  LET U == USet(srcRecs)
+      B == SeqToSet(ContentSeq(backRecs))
+      isAltId(r) == r.k = "alternate" /\ r.id # NONE
+  IN /\ \A r \in U \ B : isAltId(r)
+     /\ \A r \in B \ U : isAltId(r) /\ \E q \in U \ B : q.id = r.id
+KF_C07(step) ==
+  IF /\ step.exc = "none"
+     /\ AltIdOnly(step.src.recs, step.back.recs)
+     /\ Len(step.src.bundles) = Len(step.back.bundles)
+     /\ \A i \in 1..Len(step.src.bundles) : \E j \in 1..Len(step.back.bundles) :
+           step.src.bundles[i].id = step.back.bundles[j].id
+           /\ AltIdOnly(step.src.bundles[i].recs, step.back.bundles[j].recs)
+  THEN "KF-C07-alternate-id" ELSE ""
+
 KnownFinding(step, c) ==
   CASE c = "C03c" -> KF_C03c(step)
     [] c = "C05_refuse" -> KF_C05_refuse(step)
@@ -108,6 +126,7 @@ KnownFinding(step, c) ==
          LET changed == {h \in DOMAIN step.pre.con : ~SameCon(step, h)} IN
          IF changed # {} /\ \A h \in changed : InheritedNsOnly(step, h) /\ UnifiesDup(step, h)
          THEN "KF-unified-registers" ELSE ""
+    [] c = "C07_rt" -> KF_C07(step)
     [] c = "C06_grammar" -> KF_C06_grammar(step)
     [] c = "C06_denotes" -> IF ShadowExplains(step.src, SpecReadProvN(step.ast)) THEN "KF-C03-shadow" ELSE ""
     [] c = "C10_read_json" -> IF ShadowExplains(step.src, SpecReadJSON(step.ast)) THEN "KF-C03-shadow" ELSE ""
